@@ -11,6 +11,34 @@ from ..astutil import call_name, is_name, path_of
 
 THEORY = 'kernel/theory.py'
 
+_item_funcs = {}
+
+
+def check_item_func(repo):
+    """Theory._check_proof_item as it reads with the helpers it is split into expanded in place (sa/inline.py): helpers of
+    the same module that take part in reading cited steps, dispatching the rule or judging the result.  The block
+    checker (which calls back into _check_proof_item) and the theory look-ups stay calls."""
+    from ..inline import inlined
+    if id(repo) not in _item_funcs:
+        func = repo.func(THEORY, 'Theory._check_proof_item')
+        part = ('find_item', 'can_depend_on', 'eval', 'expand', 'check_thm_type', 'can_prove')
+
+        def want(h):
+            if h.parent is not None:        # a function defined inside the step checker is part of it
+                return True
+            names = set()
+            for n in ast.walk(h.node):
+                if isinstance(n, ast.Call):
+                    names.add(n.func.attr if isinstance(n.func, ast.Attribute) else getattr(n.func, 'id', None))
+                if isinstance(n, ast.Name) and n.id == 'primitive_deriv':
+                    names.add('find_item')
+            if names & {'_check_proof_item', '_check_proof_items'}:
+                return False
+            return bool(names & set(part))
+        f, done, left = inlined(func, want)
+        _item_funcs[id(repo)] = (repo, f, done, left)
+    return _item_funcs[id(repo)][1]
+
 
 def helper_name(repo):
     th = repo.cls(THEORY, 'Theory')
@@ -63,3 +91,22 @@ def checks_block(repo, cfg, items_path, prf_name):
                 if i < len(c.args) and path_of(c.args[i]) == items_path:
                     out.append(n)
     return out
+
+
+_extend_funcs = {}
+
+
+def extend_func(repo, fn):
+    """Theory.unchecked_extend / checked_extend in the form the rules read: a table of handlers indexed by the kind of
+    the extension is written as the chain of kind tests it abbreviates (sa/normalize.py), and handlers defined inside
+    the function are expanded at their calls (sa/inline.py)."""
+    from ..normalize import dispatch_to_branches, kind_predicates, as_func
+    from ..inline import inlined
+    key = (id(repo), fn)
+    if key not in _extend_funcs:
+        f = repo.func(THEORY, fn if fn.startswith('Theory.') else 'Theory.' + fn)
+        node, n = dispatch_to_branches(f.node, kind_predicates(repo.cls('kernel/extension.py', 'Extension')))
+        g = as_func(f, node)
+        g = inlined(g, lambda h: h.parent is not None)[0]
+        _extend_funcs[key] = (repo, g)
+    return _extend_funcs[key][1]
